@@ -569,3 +569,11 @@ seed('c08-n-quaternion-order', 'C08', [(RNGC, "    value[0] = s1 * r1;\n    valu
 seed('c08-uniformreal-scaled-by-upper', 'C08', [(RNH, "            return (upper_bound - lower_bound) * uniDist_(generator_) + lower_bound;", "            return upper_bound * uniDist_(generator_) + lower_bound;")], 'R08g')
 seed('c08-uniformint-no-plus-one', 'C08', [(RNH, "            auto r = (int)floor(uniformReal((double)lower_bound, (double)(upper_bound) + 1.0));", "            auto r = (int)floor(uniformReal((double)lower_bound, (double)(upper_bound)));")], 'R08g')
 seed('c08-n-uniformreal-commuted', 'C08', [(RNH, "            return (upper_bound - lower_bound) * uniDist_(generator_) + lower_bound;", "            return lower_bound + uniDist_(generator_) * (upper_bound - lower_bound);")], None)
+# R02j: control PDST split / duration bookkeeping
+CPDST = 'src/ompl/control/planners/pdst/src/PDST.cpp'
+seed('c02-pdst-split-duration-not-reduced', 'C02', [(CPDST, "            motion->controlDuration_ -= duration;\n", "")], 'R02j')
+seed('c02-pdst-split-counter-not-reset', 'C02', [(CPDST, "            motion->parent_ = newMotion;\n            duration = 0;", "            motion->parent_ = newMotion;")], 'R02j')
+seed('c02-pdst-split-parent-not-relinked', 'C02', [(CPDST, "            motion->parent_ = newMotion;\n            duration = 0;", "            duration = 0;")], 'R02j')
+seed('c02-pdst-ancestor-duration-not-accumulated', 'C02', [(CPDST, "            ancestor = ancestor->parent_;\n            duration += ancestor->controlDuration_;", "            ancestor = ancestor->parent_;")], 'R02j')
+seed('c02-pdst-split-start-from-prev-start', 'C02', [(CPDST, "            motion->startState_ = newMotion->endState_;", "            motion->startState_ = newMotion->startState_;")], 'R02j')
+seed('c02-n-pdst-split-statements-reordered', 'C02', [(CPDST, "            motion->startState_ = newMotion->endState_;\n            motion->controlDuration_ -= duration;", "            motion->controlDuration_ -= duration;\n            motion->startState_ = newMotion->endState_;")], None)
